@@ -338,10 +338,19 @@ def check_C14(tier_):
         sig = "cycle-closed-by-0x%02x" % r.get("cycle_op", 0) if r.get("cycle") else "leak-without-cycle"
         return sig, "%s [%s]" % (f["why"], job_brief(f["job"]) if f.get("job") else ""), {"record": r, "job": f.get("job")}
     add_hist(res, st, "C14", "leak", desc)
+    hs = hist.heap_stage(tier_, tree_key())
+    def hdesc(f):
+        r = f["record"] or {}
+        path = r.get("path", []) + ([r["op"]] if r.get("t") == "step" else [])
+        return ("object-graph:P%s:%s" % (r.get("P"), "-".join("%02x" % b for b in path[-4:])),
+                "%s [P%s, forced opcode path %s]" % (f["why"], r.get("P"), " ".join("%02x" % b for b in path)), {"record": r})
+    add_hist(res, hs, "C14", "heap", hdesc)
+    res.coverage["traces_validated_against_impl"] += hs["coverage"]["transitions_validated_against_Heap_tla"]
     add_mc(res, tier_, ["MC_Heap"])
     res.assumptions = ["live heap measured by a counting global allocator in the harness process, single-threaded, after one warm-up generation per protocol",
                        "reference cycles are detected by the hook by walking the Rc graph from stack and memo roots after every event",
-                       "Heap.tla (cells with identity, strong edges; NoCycle and Unshared for all opcode sequences up to 6 over the aliasing-relevant subset) is bound to the code by the per-run check that no two stack slots share a cell"]
+                       "Heap.tla (cells with identity, strong edges; NoCycle, Unshared and MutatesOnlySlots for all opcode sequences up to 6 over the aliasing-relevant subset) is bound to the code transition by transition: Heap!Eff applied to a recorded heap of the real generator must give the recorded next heap up to the names of fresh cells (TraceHeap.tla), for every transition out of every object-graph shape the breadth-first walk reaches up to the logged depth",
+                       "the breadth-first walk de-duplicates on a colour-refinement hash of the graph shape: a collision loses coverage, never soundness; the verdict is NoCycle evaluated on the real object graph and the allocator balance after drop"]
     return res
 
 CHECKS.update({"C07": check_C07, "C08": check_C08, "C09": check_C09, "C12": check_C12, "C14": check_C14})
